@@ -1,6 +1,165 @@
-From SV Require Import Base Json Canon Sync SyncObs CorrC13 CorrC14 CorrC15 C13Proofs C15Proofs.
+(* C15 — sync options are honoured: dry-run writes nothing, deep, exclude, selection, parallel.
+   Statements only; proofs in SV.SyncProofs / SyncDocProofs / SyncTopProofs / C15Proofs. *)
+From SV Require Import C15Proofs SyncWitness.
 
-Theorem C15_placeholder : forall frepr cf o en src dst,
-  ob_src (model_call frepr cf o en src dst) = src.
-Proof. exact run_sync_src_untouched. Qed.
-Print Assumptions C15_placeholder.
+(* ---------------------------------------------------------------- dry_run_no_change
+   FULL statement: dry_run = true -> tree_dst' = tree_dst /\ tree_src' = tree_src /\ documents unchanged
+                   /\ (the dry run raises c <-> the real run raises c).
+   It is FALSE of /repo (four independent defects, each with a witness replayed on the real code): *)
+Theorem C15_dry_run_no_change_refuted_F3_typeerror :
+  exists i, o_dry_run (i_opts i) = true
+            /\ ob_exn (c_obs (model_case nofl cfg_current i)) = Some ETypeError
+            /\ option_map ob_exn (c_ref (model_case nofl cfg_current i)) = Some None
+            /\ dry_ok nofl (model_case nofl cfg_current i) = false
+            /\ dry_ok nofl (model_case nofl cfg_fixed i) = true.
+Proof. exists wit_C15_w1. exact w1_facts. Qed.
+Print Assumptions C15_dry_run_no_change_refuted_F3_typeerror.
+
+Theorem C15_dry_run_no_change_refuted_F4_skeleton :
+  exists i, o_dry_run (i_opts i) = true
+            /\ ob_exn (c_obs (model_case nofl cfg_current i)) = None
+            /\ proj_eqb nofl (i_dst i) (ob_dst (c_obs (model_case nofl cfg_current i))) = false
+            /\ dry_ok nofl (model_case nofl cfg_current i) = false
+            /\ dry_ok nofl (model_case nofl cfg_fixed i) = true.
+Proof. exists wit_C15_w2. exact w2_facts. Qed.
+Print Assumptions C15_dry_run_no_change_refuted_F4_skeleton.
+
+Theorem C15_dry_run_no_change_refuted_F16_nested_doc :
+  exists i, o_dry_run (i_opts i) = true
+            /\ ob_exn (c_obs (model_case nofl cfg_current i)) = None
+            /\ proj_eqb nofl (i_dst i) (ob_dst (c_obs (model_case nofl cfg_current i))) = false
+            /\ dry_ok nofl (model_case nofl cfg_current i) = false
+            /\ dry_ok nofl (model_case nofl cfg_fixed i) = true.
+Proof. exists wit_C15_w3. exact w3_facts. Qed.
+Print Assumptions C15_dry_run_no_change_refuted_F16_nested_doc.
+
+Theorem C15_dry_run_no_change_refuted_uninitialised_dst :
+  exists i, o_dry_run (i_opts i) = true
+            /\ ob_exn (c_obs (model_case nofl cfg_current i)) = Some EOSError
+            /\ option_map ob_exn (c_ref (model_case nofl cfg_current i)) = Some None
+            /\ dry_ok nofl (model_case nofl cfg_current i) = false
+            /\ dry_ok nofl (model_case nofl cfg_fixed i) = true.
+Proof. exists wit_C15_w6. exact w6_facts. Qed.
+Print Assumptions C15_dry_run_no_change_refuted_uninitialised_dst.
+
+(* PARTIAL (what is proved): the "writes nothing" half.  Project level: once copytree (F4) and the nested
+   document proxy (F16) are repaired a dry run returns the destination project unchanged — every selection,
+   strategy, document strategy, outcome, sequential or pooled.  MISSING: "raises c <-> the real run raises c"
+   is not proved (it is checked on every correspondence case through the companion real run). *)
+Theorem C15_dry_run_no_change_partial : forall frepr cf all o src dst,
+  o_dry_run o = true -> fix_F4 cf = true -> fix_F16 cf = true -> docs_wf src ->
+  fst (sync_projects_m frepr cf all o src dst) = dst.
+Proof. exact sync_projects_dry_id. Qed.
+Print Assumptions C15_dry_run_no_change_partial.
+
+(* PARTIAL, for /repo as it is (no switch assumed): job level, when copytree cannot be reached (not recursive)
+   and the source document has no nested mapping, a dry run leaves the destination job as it is *)
+Theorem C15_dry_run_no_change_partial_current : forall frepr cf o deep fp src dst dsp,
+  o_dry_run o = true -> fix_F4 cf = true \/ o_recursive o = false ->
+  (forall sd, src = Some sd -> (fix_F16 cf = true \/ flat_obj (JObj (read_doc FN_DOC sd)) = true)
+                               /\ NoDup (map fst (read_doc FN_DOC sd))) ->
+  fst (sync_jobs_m frepr cf o deep fp src dst dsp) = dst.
+Proof. exact sync_jobs_dry_id. Qed.
+Print Assumptions C15_dry_run_no_change_partial_current.
+
+(* the file walk alone: copy() under dry_run never writes — it only raises (F3) *)
+Theorem C15_dry_run_walk_writes_nothing : forall frepr cf fuel o deep sdir ddir subdir,
+  o_dry_run o = true -> fix_F4 cf = true \/ o_recursive o = false ->
+  fst (sync_ws frepr cf fuel o deep sdir ddir subdir) = ddir.
+Proof. exact sync_ws_dry_id. Qed.
+Print Assumptions C15_dry_run_walk_writes_nothing.
+
+(* ---------------------------------------------------------------- deep_by_content
+   FULL statement: with deep=True a file on both sides with different bytes is a conflict (strategy consulted /
+   FileSyncConflict) whatever its size and mtime, at job and at project level.
+   Job level (Job.sync, sync_jobs): true — the walk is C14_overwrite_iff_strategy / C14_no_strategy_conflict_*
+   with deep := o_deep o, and under deep "differs" is "different bytes": *)
+Theorem C15_deep_by_content_job_level : forall frepr cf o sid did dsp src dst c1 m1 c2 m2,
+  run_sync frepr cf o (E_job sid did dsp) src dst =
+    (let '(d', e) := sync_jobs_m frepr cf o (o_deep o) false (job_dir sid (p_ws src)) (job_dir did (p_ws dst)) dsp in
+     ({| p_top := p_top dst;
+         p_ws := match d' with Some x => aset did (Dir x) (p_ws dst) | None => p_ws dst end |}, e))
+  /\ (file_same frepr true c1 m1 c2 m2 = false
+      <-> bytes_eqb (content_bytes frepr c1) (content_bytes frepr c2) = false).
+Proof. intros. split; [apply job_level_deep|apply deep_diff_is_bytes]. Qed.
+Print Assumptions C15_deep_by_content_job_level.
+
+(* Project level: sync_projects hands proj_deep to sync_jobs, which is o_deep iff F5 is repaired ... *)
+Theorem C15_deep_by_content_project_level_partial : forall cf o, fix_F5 cf = true -> proj_deep cf o = o_deep o.
+Proof. exact proj_deep_fixed. Qed.
+Print Assumptions C15_deep_by_content_project_level_partial.
+
+(* ... and is constantly false in /repo: same size, same mtime, different bytes, deep=True, no strategy —
+   Project.sync returns instead of raising FileSyncConflict *)
+Theorem C15_deep_by_content_refuted :
+  exists i, o_deep (i_opts i) = true /\ o_strategy (i_opts i) = None
+            /\ ob_exn (c_obs (model_case nofl cfg_current i)) = None
+            /\ deep_ok nofl i (c_obs (model_case nofl cfg_current i)) = false
+            /\ ob_exn (c_obs (model_case nofl cfg_fixed i)) = Some EFileSyncConflict
+            /\ deep_ok nofl i (c_obs (model_case nofl cfg_fixed i)) = true.
+Proof. exists wit_C15_w4. exact w4_facts. Qed.
+Print Assumptions C15_deep_by_content_refuted.
+
+(* ---------------------------------------------------------------- exclude_never_touched
+   FULL statement: a file whose name matches an exclude pattern is never created or modified.
+   PARTIAL: true of the file walk of a real run when copytree honours the patterns (fix_excl) or is never
+   reached (not recursive) — any outcome; the destination node at such a path is unchanged unless it is a
+   directory on both sides (directories are walked, not matched).  MISSING for /repo: left-only directories
+   and cloned jobs are copied whole — C15_exclude_never_touched_refuted *)
+Theorem C15_exclude_never_touched_partial : forall frepr cf p fuel o deep sdir ddir subdir,
+  fix_excl cf = true \/ o_recursive o = false ->
+  wf_node (Dir sdir) = true -> o_dry_run o = false ->
+  p <> [] -> excluded cf o (last p []) = true ->
+  (forall es, lookup_path p (Dir ddir) <> Some (Dir es)) ->
+  lookup_path p (Dir (fst (sync_ws frepr cf fuel o deep sdir ddir subdir))) = lookup_path p (Dir ddir).
+Proof. exact ws_exclude_never_touched. Qed.
+Print Assumptions C15_exclude_never_touched_partial.
+
+Theorem C15_exclude_never_touched_refuted :
+  exists i, o_exclude (i_opts i) [120%N] = true
+            /\ exclude_ok nofl i (c_obs (model_case nofl cfg_current i)) = false
+            /\ exclude_ok nofl i (c_obs (model_case nofl cfg_fixed i)) = true.
+Proof. exists wit_C15_w5. exact w5_facts. Qed.
+Print Assumptions C15_exclude_never_touched_refuted.
+
+(* ---------------------------------------------------------------- selection_respected (full) *)
+Theorem C15_selection_respected : forall frepr cf all o src dst id,
+  job_selected o id = false \/ alookup id (p_ws src) = None ->
+  alookup id (p_ws (fst (sync_projects_m frepr cf all o src dst))) = alookup id (p_ws dst).
+Proof. exact selection_respected. Qed.
+Print Assumptions C15_selection_respected.
+
+(* ---------------------------------------------------------------- parallel_eq_sequential (full, at job
+   granularity): every order in which a pool can hand the jobs to _clone_or_sync succeeds iff the sequential loop
+   does and yields the same workspace; a job's step reads and writes only its own workspace entry *)
+Theorem C15_parallel_eq_sequential : forall frepr cf o jobs jobs' ws,
+  NoDup (map fst jobs) -> Permutation.Permutation jobs jobs' ->
+  snd (run_steps (clone_or_sync frepr cf o) jobs ws) = None ->
+  snd (run_steps (clone_or_sync frepr cf o) jobs' ws) = None
+  /\ forall id, alookup id (fst (run_steps (clone_or_sync frepr cf o) jobs' ws))
+                = alookup id (fst (run_steps (clone_or_sync frepr cf o) jobs ws)).
+Proof. exact parallel_eq_sequential. Qed.
+Print Assumptions C15_parallel_eq_sequential.
+
+Theorem C15_job_step_is_local : forall frepr cf o,
+  frame_step (fun kn : str * node => fst kn) (clone_or_sync frepr cf o)
+  /\ local_step (fun kn : str * node => fst kn) (clone_or_sync frepr cf o).
+Proof. intros. split; [apply clone_or_sync_frame|apply clone_or_sync_local]. Qed.
+Print Assumptions C15_job_step_is_local.
+
+(* licence for the correspondence: the tree part of the dry-run clause of the oracle holds on what the model
+   (with F4 and F16 repaired) computes for a project-level dry run *)
+Theorem C15_model_holds : forall frepr cf i,
+  i_entry i = E_project -> o_dry_run (i_opts i) = true -> fix_F4 cf = true -> fix_F16 cf = true ->
+  docs_wf (i_src i) -> wf_project (i_src i) = true -> wf_project (i_dst i) = true ->
+  let c := model_case frepr cf i in
+  proj_eqb frepr (i_dst i) (ob_dst (c_obs c)) = true /\ proj_eqb frepr (i_src i) (ob_src (c_obs c)) = true
+  /\ ob_rest_ok (c_obs c) = true.
+Proof. exact model_holds_C15. Qed.
+Print Assumptions C15_model_holds.
+
+(* non-vacuity: the six witnesses are well-formed inputs on which the repaired model satisfies the whole oracle *)
+Example C15_example :
+  forallb (fun i => holds_C15 nofl (model_case nofl cfg_fixed i) && wf_project (i_src i) && wf_project (i_dst i))
+          [wit_C15_w1; wit_C15_w2; wit_C15_w3; wit_C15_w4; wit_C15_w5; wit_C15_w6] = true.
+Proof. vm_compute. reflexivity. Qed.
